@@ -18,7 +18,8 @@ check("C05", "model_checking",
       "TLC checks the declarative tiling properties (exactly-once cover, row-major order, dims bounded, block order, greedy "
       "adjacent merging) on the TLA+ transcription of merge/blocking for every shape in the bounds; the same TLA+ operators, "
       "evaluated by TLC, are the oracle the real Distributor's parameter and gradient blocks are compared against on the "
-      "exhaustive case set plus random large shapes; blocked-vs-presplit metamorphic optimizer runs cover the invariance part.",
+      "exhaustive case set plus random large shapes, also with parameters / gradients held as offset views, transposed tensors or strided "
+      "slices of larger buffers (a layout that cannot be viewed may only be refused); blocked-vs-presplit metamorphic optimizer runs cover the invariance part.",
       "Trusted: TLC's evaluator, the JSON bridge, torch view semantics. Exhaustive only within the stated bounds.",
       "TLA+ spec (Blocking/BlockingMC) model-checked by TLC + spec-as-oracle conformance against the real Distributor",
       "DESIGN.md §5 C05")
@@ -38,8 +39,10 @@ check("C15", "model_checking",
       "TLA+ spec (SplitRecovery/SplitRecoveryMC) model-checked by TLC + spec-as-oracle conformance on both copies", "DESIGN.md §5 C15")
 check("C16", "model_checking",
       "TLC checks round-trip, drops-only-leafless and injectivity of the flat-key model for every small nested dict over a hostile "
-      "key alphabet; the spec's Flatten/Leafful/ModuleState, evaluated by TLC, are compared with the real flatten/unflatten and "
-      "OptimizerModule.state_dict/load_state_dict on exhaustive small and random deep structures (identity of tensor objects included).",
+      "key alphabet (quotes, separators, int vs str, lone surrogates vs the astral character they encode: the escaped encoding EncAscii is "
+      "shown NOT injective, the repaired one is); the spec's Flatten/Leafful/ModuleState, evaluated by TLC, are compared with the real flatten/unflatten and "
+      "OptimizerModule.state_dict/load_state_dict on exhaustive small and random deep structures (identity of tensor objects included; "
+      "non-ASCII, bool and large-int keys; transposed, 0-D, empty, strided and integer tensors).",
       "The real flat-key text is only required to be injective and to round-trip, not to equal the spec's JSON model.",
       "TLA+ spec (StateDict/StateDictMC) model-checked by TLC + spec-as-oracle conformance", "DESIGN.md §5 C16")
 check("C17", "model_checking",
@@ -91,7 +94,8 @@ check("C09", "model_checking",
 
 check("C18", "translation_validation",
       "Translation validation of the compiled step: every TLC-simulated behaviour of ShampooOpt (phase switch, refresh steps, mask changes "
-      "that force recompilation, tolerated failures, hyper changes) is executed by the eager optimizer and by optimizers compiled with the "
+      "that force recompilation, tolerated failures, hyper changes incl. scheduler moves over all groups, Save / Load of a checkpoint into "
+      "the live optimizers - rollbacks preferred) is executed by the eager optimizer and by optimizers compiled with the "
       "eager / aot_eager backends in static, dynamic and auto-dynamic mode; all parameters and state tensors must be bitwise equal after "
       "every step, a run only counts if dynamo reports compiled frames, and the compiled run's trace is validated by TLC against the spec.",
       "CPU only; inductor / CUDA not exercised. Behaviours are sampled (seeded TLC simulation); edge classes covered are listed in the evidence.",
@@ -100,8 +104,9 @@ check("C18", "translation_validation",
 check("C06", "model_checking",
       "spec/ShampooDist models W ranks in groups of GS with one gather per group and step whose completion requires every member blocked "
       "in an identically-signed call; TLC checks deadlock freedom, liveness (NoRankLeftWaiting), SerialEquivalence, ReplicaAgreement, "
-      "OwnerUnique and CreationAgreement over every mask history and interleaving for W<=4. The real DDPDistributor + optimizer run on "
-      "simulated ranks (thread-per-rank process group with arrival gates and exact deadlock detection); every rank after every step is "
+      "OwnerUnique and CreationAgreement over every mask history and interleaving for W<=4, with one or two parameter groups (one gather "
+      "phase per group, signatures differ). The real DDPDistributor + optimizer run on simulated ranks (thread-per-rank process group with "
+      "arrival gates and exact deadlock detection; float32, float64, 16-bit and mixed-dtype parameter groups, one or two groups); every rank after every step is "
       "bitwise equal to the serial optimizer whose communicated quantity is rounded through the communication dtype; per-rank logs of "
       "group creations and gathers are validated by TLC (DistTrace), which also names the deviation that explains a rejected log.",
       "The threaded process group stands in for the transport (a 2-4 process gloo smoke run was used to validate the repair of D5b). "
